@@ -530,6 +530,49 @@ func runC02(r *mc.Run) {
 			}
 		}
 	}
+	// paths with ".." behind a symbolic link: the operating system resolves the link first (current -> store/v2, so
+	// current/../roots.pem is store/roots.pem), a lexical clean-up of the path names another file (./roots.pem)
+	{
+		sdir := filepath.Join(dir, "links")
+		for flip := 0; flip < 2; flip++ {
+			for vi, variant := range []string{"current/../roots.pem", "current/./../roots.pem", "a/../current/../roots.pem", "current/../../links-" + fmt.Sprint(flip) + "/store/roots.pem"} {
+				sub := filepath.Join(sdir+"-"+fmt.Sprint(flip), fmt.Sprint(vi))
+				if os.MkdirAll(filepath.Join(sub, "store", "v2"), 0o755) != nil || os.MkdirAll(filepath.Join(sub, "a"), 0o755) != nil {
+					continue
+				}
+				if os.Symlink(filepath.Join("store", "v2"), filepath.Join(sub, "current")) != nil {
+					continue
+				}
+				listedCert, neighbourCert := F.Root, T.Root
+				lists := []bool{false, true}
+				if flip == 1 {
+					listedCert, neighbourCert = T.Root, F.Root
+					lists = []bool{true, false}
+				}
+				// what the system opens for <sub>/current/../roots.pem is <sub>/store/roots.pem
+				if os.WriteFile(filepath.Join(sub, "store", "roots.pem"), world.PEM(listedCert), 0o600) != nil || os.WriteFile(filepath.Join(sub, "roots.pem"), world.PEM(neighbourCert), 0o600) != nil {
+					continue
+				}
+				lp := sub + "/" + variant
+				if vi == 3 {
+					// <sub>/current/../../links-N/store/roots.pem: resolves through store/ to <sub>/../links-N/store -> only
+					// meaningful when that directory exists; point it at the same listed file
+					os.MkdirAll(filepath.Join(sub, "links-"+fmt.Sprint(flip), "store"), 0o755)
+					os.WriteFile(filepath.Join(sub, "links-"+fmt.Sprint(flip), "store", "roots.pem"), world.PEM(listedCert), 0o600)
+					os.MkdirAll(filepath.Join(filepath.Dir(sub), "links-"+fmt.Sprint(flip), "store"), 0o755)
+					os.WriteFile(filepath.Join(filepath.Dir(sub), "links-"+fmt.Sprint(flip), "store", "roots.pem"), world.PEM(neighbourCert), 0o600)
+				}
+				if _, err := os.Stat(lp); err != nil {
+					continue
+				}
+				cfgs = append(cfgs, struct {
+					name  string
+					rot   *ccpb.RootOfTrust
+					lists []bool
+				}{fmt.Sprintf("file-behind-symlink-%q,listed-holds-%s", variant, map[int]string{0: "F", 1: "T"}[flip]), &ccpb.RootOfTrust{CabundlePaths: []string{lp}}, lists})
+			}
+		}
+	}
 	// one CERTIFICATE block whose payload is SEVERAL certificates back to back: whatever a reader makes of the first,
 	// the certificates hidden behind it are not listed (every standard reader sees at most the first)
 	unspecifiedFor := map[string]int{}
